@@ -149,6 +149,39 @@ def toy_harmonics(theta, phi):
     return torch.cat([theta + 2 * phi, 3 * theta - phi], dim=1)
 
 
+def mutable_reachable(roots, depth=4):
+    """{id: object} of the MUTABLE objects reachable from roots through lists / tuples / sets / dict values / __dict__
+    (to the given depth): containers, tensors, modules and plain instances; immutable scalars, strings, functions, classes,
+    modules, dtypes and devices are ignored"""
+    import types
+    torch = _torch()
+    skip = (int, float, complex, str, bytes, bool, type(None), type, types.FunctionType, types.BuiltinFunctionType, types.MethodType,
+            types.ModuleType, torch.dtype, torch.device, torch.Size, range, frozenset)
+    seen = {}
+
+    def walk(o, d):
+        if isinstance(o, skip) or id(o) in seen and not isinstance(o, tuple):
+            return
+        if not isinstance(o, tuple):
+            seen[id(o)] = o
+        if d == 0:
+            return
+        if isinstance(o, (list, tuple, set)):
+            for x in o:
+                walk(x, d - 1)
+        elif isinstance(o, dict):
+            for x in o.values():
+                walk(x, d - 1)
+        elif isinstance(o, torch.Tensor):
+            return
+        elif hasattr(o, '__dict__'):
+            for x in vars(o).values():
+                walk(x, d - 1)
+    for r_ in roots:
+        walk(r_, depth)
+    return seen
+
+
 def _requires_closure(opt):
     import inspect
     p = inspect.signature(opt.step).parameters.get('closure')
@@ -221,6 +254,43 @@ def make_components():
         def enforce(self, net, *coords):
             return net(torch.cat(coords, dim=1)) + _extra(self.tag, coords)
 
+    class _Sub:                          # a sub-object of a condition (like the members of an EnsembleCondition)
+        def __init__(self, tag):
+            self.tag = float(tag)
+
+    class TagNestList(BaseCondition):    # the tag lives in a LIST attribute
+        def __init__(self, tag):
+            super().__init__(); self.parts = [float(tag)]
+        tag = property(lambda self: self.parts[0])
+
+        def set_tag(self, t):
+            self.parts[0] = float(t)         # in-place mutation one level below the condition object
+
+        def parameterize(self, out, *coords):
+            return out + _extra(self.parts[0], coords)
+
+    class TagNestDict(BaseCondition):    # ... in a DICT attribute (like bundle_param_lookup)
+        def __init__(self, tag):
+            super().__init__(); self.table = {'tag': float(tag)}
+        tag = property(lambda self: self.table['tag'])
+
+        def set_tag(self, t):
+            self.table['tag'] = float(t)
+
+        def parameterize(self, out, *coords):
+            return out + _extra(self.table['tag'], coords)
+
+    class TagNestSub(BaseCondition):     # ... in a sub-object
+        def __init__(self, tag):
+            super().__init__(); self.sub = _Sub(tag)
+        tag = property(lambda self: self.sub.tag)
+
+        def set_tag(self, t):
+            self.sub.tag = float(t)
+
+        def parameterize(self, out, *coords):
+            return out + _extra(self.sub.tag, coords)
+
     class ScriptedClosureOpt(torch.optim.Optimizer):
         """requires a closure; evaluates it a scripted number of times, taking a plain gradient
         step of size lr after every evaluation"""
@@ -241,7 +311,7 @@ def make_components():
                                 p.add_(p.grad, alpha=-gr['lr'])
 
     comp = dict(ToyNet=ToyNet, TagVar=TagVar, TagFix1=TagFix1, TagFix2=TagFix2, TagFix3=TagFix3, TagEnf2=TagEnf2,
-                TagEnfVar=TagEnfVar, NoCondition=NoCondition, ScriptedClosureOpt=ScriptedClosureOpt)
+                TagEnfVar=TagEnfVar, NoCondition=NoCondition, TagNestList=TagNestList, TagNestDict=TagNestDict, TagNestSub=TagNestSub, ScriptedClosureOpt=ScriptedClosureOpt)
     _T['comp'] = comp
     return comp
 
@@ -249,6 +319,8 @@ def make_components():
 COND_KINDS = {   # kind -> (class name, signature as the model sees it, coef)
     'var': ('TagVar', 'var', 1), 'fix1': ('TagFix1', 1, 1), 'fix2': ('TagFix2', 2, 1), 'fix3': ('TagFix3', 3, 1),
     'enf2': ('TagEnf2', 2, 1), 'enfvar': ('TagEnfVar', 'var', 1), 'none': ('NoCondition', 'var', 0),
+    # variadic tagging conditions whose tag is NESTED mutable state (list / dict / sub-object), mutated in place by set_conds
+    'nlist': ('TagNestList', 'var', 1), 'ndict': ('TagNestDict', 'var', 1), 'nsub': ('TagNestSub', 'var', 1),
 }
 
 
@@ -355,6 +427,7 @@ class Runner:
         self.solutions = []
         self.cur_lid = sc['lid']
         self.in_residuals = False
+        self.real_cbs = {}
 
     # ---- construction through the public constructor
     def build(self):
@@ -446,6 +519,21 @@ class Runner:
                     runner.do_action(item['act'], in_callback=True, fi=fi)
         return cb
 
+    def real_callback(self, act):
+        """the REAL neurodiffeq.callbacks.SetLossFn / SetOptimizer under a real PeriodLocal / OnFirstLocal condition
+        (one object per scripted item, so its `called` flag lives as long as the fit call's callback)"""
+        key = id(act)
+        if key not in self.real_cbs:
+            import neurodiffeq.callbacks as CB
+            if act['kind'] == 'real_set_loss':
+                inner = CB.SetLossFn(make_loss(act['lid'], 'none', self.log), reset=act['reset'])
+            else:
+                inner = CB.SetOptimizer(build_optimizer(act['opt'], self.params, self.log, self.rec), reset=act['reset'])
+            c = act['cond']
+            cond = CB.OnFirstLocal() if c['type'] == 'first' else CB.PeriodLocal(period=c['period'], offset=c['offset'])
+            self.real_cbs[key] = (inner.conditioned_on(cond), inner, cond)
+        return self.real_cbs[key]
+
     def snapshot(self, fi):
         s = self.solver
         mh = s.metrics_history
@@ -477,8 +565,16 @@ class Runner:
                     p.copy_(torch.tensor(float(v)))
         elif kind == 'set_conds':
             for c, t in zip(self.conds, act['tags']):
-                if hasattr(c, 'tag'):
+                if hasattr(c, 'set_tag'):
+                    c.set_tag(t)                 # nested state, mutated in place
+                elif hasattr(c, 'tag'):
                     c.tag = float(t)
+        elif kind in ('real_set_loss', 'real_set_opt'):
+            cb, inner, cond = self.real_callback(act)
+            fires = bool(cond.condition(s)) and (inner.reset or not inner.called)
+            cb(s)
+            if fires and kind == 'real_set_loss':
+                self.cur_lid = act['lid']
         elif kind == 'record':
             self.rec['epochs'].append(self.snapshot(fi))
         else:
@@ -493,14 +589,18 @@ class Runner:
         for oi, op in enumerate(self.sc['ops']):
             k = op['op']
             if k == 'fit':
-                cbs = [self.make_callback(oi, ci, script) for ci, script in enumerate(op['cbs'])]
+                objs = [self.make_callback(oi, ci, script) for ci, script in enumerate(op['cbs'])]
+                # the SAME callback object may be listed several times; the list may also be handed over as a tuple
+                cbs = [objs[i] for i in op.get('cb_order', range(len(objs)))]
+                if op.get('cb_container') == 'tuple':
+                    cbs = tuple(cbs)
                 pre = self.snapshot(oi)
                 with warnings.catch_warnings():
                     warnings.simplefilter('ignore')
                     self.solver.fit(op['max_epochs'], callbacks=cbs, tqdm_file=None)
                 post = self.snapshot(oi)
                 self.rec['fits'].append({'op': oi, 'max_epochs': op['max_epochs'], 'pre': pre, 'post': post,
-                                         'ncbs': len(cbs)})
+                                         'ncbs': len(cbs), 'cb_ids': [int(i) for i in op.get('cb_order', range(len(objs)))]})
             elif k == 'act':
                 self.do_action(op['act'])
             elif k == 'get_solution':
@@ -513,7 +613,12 @@ class Runner:
                         else:
                             sol = self.solver.get_solution(copy=op['copy'], best=op['best'])
                     self.solutions.append(sol)
-                    self.rec['outs'].append(dict(state, op=oi, kind='get_solution', ok=True, cls=type(sol).__name__))
+                    shared = []
+                    if op['copy']:          # aliasing probe: a copy shares no mutable object with the solver
+                        mine = mutable_reachable([sol.nets, sol.conditions])
+                        theirs = mutable_reachable([self.solver.nets, self.solver.conditions, self.solver.best_nets])
+                        shared = sorted({type(mine[i]).__name__ for i in mine if i in theirs})
+                    self.rec['outs'].append(dict(state, op=oi, kind='get_solution', ok=True, cls=type(sol).__name__, shared=shared))
                 except RuntimeError as e:
                     self.solutions.append(None)
                     self.rec['outs'].append(dict(state, op=oi, kind='get_solution', ok=False, error='RuntimeError'))
@@ -671,9 +776,29 @@ def caction(a, sc):
     raise ValueError(k)
 
 
+def real_cond(act):
+    """when the real conditioned callback performs its action, as a Coq boolean over the local epoch"""
+    c = act['cond']
+    if c['type'] == 'first':
+        fire = 'Nat.eqb (local_epoch s) 1'
+        first = 1
+    else:
+        k, o = c['period'], c['offset'] % c['period']
+        fire = f'Nat.eqb (Nat.modulo (local_epoch s) {k}) {o}'
+        first = o if o >= 1 else k
+    if not act['reset']:            # SetLossFn / SetOptimizer act only the first time (their `called` flag)
+        fire = f'Nat.eqb (local_epoch s) {first}'
+    return fire
+
+
 def ccallback(script, sc):
     parts = []
     for item in script:
+        if item['act']['kind'] in ('real_set_loss', 'real_set_opt'):
+            a = item['act']
+            inner = f'(ASetLoss {a["lid"]})' if a['kind'] == 'real_set_loss' else f'(ASetOpt {copt(a["opt"])})'
+            parts.append(f'(if {real_cond(a)} then ([{inner}] : list t_action) else (@nil t_action))')
+            continue
         act = f'([{caction(item["act"], sc)}] : list t_action)'
         if item['when'] is None:
             parts.append(act)
@@ -783,7 +908,8 @@ def coq_case(sc, rec, exact=True):
         k = op['op']
         if k == 'fit':
             nxt = f's{oi + 1}'
-            cbs = clist([ccallback(script, sc) for script in op['cbs']], 't_callback')
+            cbl = [ccallback(script, sc) for script in op['cbs']]
+            cbs = clist([cbl[i] for i in op.get('cb_order', range(len(cbl)))], 't_callback')
             lets.append(f'let {nxt} := t_fit cfg nm trs vas {op["max_epochs"]} {cbs} {cur} in')
             cur = nxt
             post = rec['fits'][fit_i]['post']
@@ -843,7 +969,21 @@ def coq_case(sc, rec, exact=True):
         fs = clist([f'(fun a : snapshot (list Q) Q => snap_discrete a {csnap_disc(sn)})' for sn in rec['epochs']],
                    '(snapshot (list Q) Q -> bool)')
     checks.append(('snaps', f'all2 (fun (a : snapshot (list Q) Q) (f : snapshot (list Q) Q -> bool) => f a) (snaps {cur}) {fs}'))
-    checks.append(('trace', f'events_eqb (spy_trace {cur}) {clist([cevent(e) for e in rec["log"] if e[0] != "loss"], "event")}'))
+    # the spy logs WHICH callback object ran; the model logs the POSITION in the list handed to fit(): positions restart
+    # after every epoch (the recorder is the last entry of every list, its snapshot marks the end of the epoch)
+    ends = {sn['n_log'] for sn in rec['epochs']}
+    evs, pos = [], 0
+    for i, e in enumerate(rec['log']):
+        if i in ends:
+            pos = 0
+        if e[0] == 'loss':
+            continue
+        if e[0] == 'cb':
+            evs.append(f'EvCb {pos}')
+            pos += 1
+        else:
+            evs.append(cevent(e))
+    checks.append(('trace', f'events_eqb (spy_trace {cur}) {clist(evs, "event")}'))
     return '\n '.join(lets), checks
 
 
@@ -867,9 +1007,9 @@ def _cond_kinds(cls, ncoords, r, variadic_spherical=True):
     if cls == 'Spherical':
         ks = ['fix1', 'fix2', 'fix3', 'enf2', 'fix3', 'fix3']
         if variadic_spherical:
-            ks += ['var', 'none', 'enfvar']
+            ks += ['var', 'none', 'enfvar', 'nlist', 'ndict', 'nsub']
         return ks
-    ks = ['var', 'var', 'none', 'enfvar']
+    ks = ['var', 'var', 'none', 'enfvar', 'nlist', 'ndict', 'nsub']
     if ncoords <= 3:
         ks.append(f'fix{ncoords}')
     if ncoords == 2:
@@ -918,6 +1058,14 @@ def gen_action(r, sc, kinds):
         return {'kind': 'set_loss', 'lid': r.choice([0, 1])}
     if k == 'set_opt':
         return {'kind': 'set_opt', 'opt': gen_opt(r, ['sgd', 'script'])}
+    if k in ('real_set_loss', 'real_set_opt'):
+        cond = {'type': 'first'} if r.random() < 0.3 else {'type': 'period', 'period': r.randint(1, 3), 'offset': r.randint(0, 2)}
+        act = {'kind': k, 'reset': r.random() < 0.5, 'cond': cond}
+        if k == 'real_set_loss':
+            act['lid'] = r.choice([0, 1])
+        else:
+            act['opt'] = {'kind': 'sgd', 'lr': r.choice([0.5, 0.25, 0.125, 0.0625])}
+        return act
     if k == 'set_theta':
         return {'kind': 'set_theta', 'w': [r.randint(-8, 8) / 4 for _ in sc['w0']]}
     if k == 'set_conds':
@@ -927,7 +1075,7 @@ def gen_action(r, sc, kinds):
 
 def gen_scenario(r, classes=CLASSES, opt_kinds=('sgd', 'script'), n_fits=(1, 4), max_epochs=(0, 6), nmetrics=(0, 2),
                  nbt=(1, 3), nbv=(0, 3), lids=(0, 1), cb_actions=('stop',), between_actions=(), sol_ops=False,
-                 tie=False, variadic_spherical=True, max_total_epochs=None, recorder=True):
+                 tie=False, variadic_spherical=True, max_total_epochs=None, recorder=True, dup_callbacks=False):
     cls = r.choice(list(classes))
     ntheta = r.randint(0, 3) if cls == 'Bundle' else 0
     ncoords = NCOORDS.get(cls) or (1 + ntheta if cls == 'Bundle' else r.randint(1, 3))
@@ -989,11 +1137,24 @@ def gen_scenario(r, classes=CLASSES, opt_kinds=('sgd', 'script'), n_fits=(1, 4),
                 act = gen_action(r, sc, list(cb_actions))
                 if when is None and act['kind'] in ('stop',):
                     when = r.randint(1, max(1, m))
+                if act['kind'].startswith('real_'):
+                    when = None          # the real conditioned callback decides itself when to act
                 script.append({'when': when, 'act': act})
             cbs.append(script)
         if recorder:
             cbs.append([{'when': None, 'act': {'kind': 'record'}}])
-        ops.append({'op': 'fit', 'max_epochs': m, 'cbs': cbs})
+        op = {'op': 'fit', 'max_epochs': m, 'cbs': cbs}
+        if dup_callbacks and recorder and r.random() < 0.6:
+            if len(cbs) == 1:
+                cbs.insert(0, [])                      # a callback that does nothing (it is still called and logged)
+            base = list(range(len(cbs) - 1))
+            order = list(base)
+            for _ in range(r.randint(1, 2)):           # the SAME object again, somewhere in the list
+                order.insert(r.randint(0, len(order)), r.choice(base))
+            op['cb_order'] = order + [len(cbs) - 1]    # the recorder stays last and unique
+            if r.random() < 0.3:
+                op['cb_container'] = 'tuple'
+        ops.append(op)
         for _ in range(r.randint(0, 2) if between_actions else 0):
             ops.append({'op': 'act', 'act': gen_action(r, sc, list(between_actions))})
         if sol_ops:
@@ -1107,7 +1268,7 @@ def shrink(sc, still_fails, budget=60):
                 if attempt(cand):
                     changed = True
             for j in range(len(op['cbs']) - 1, -1, -1):
-                if any(it['act']['kind'] == 'record' for it in op['cbs'][j]):
+                if any(it['act']['kind'] == 'record' for it in op['cbs'][j]) or 'cb_order' in op:
                     continue
                 cand = copy.deepcopy(cur)
                 del cand['ops'][i]['cbs'][j]
